@@ -147,6 +147,41 @@ mod table {
     any_config!(spec_c16, sizes::c16_oracle);
     any_config!(spec_c17, sizes::c17_oracle);
 
+    // one builder object used repeatedly: the use history comes first (fixed length field), the configuration behind it
+    fn reuse_case(data: &[u8]) -> Option<reuse::ReuseCase> {
+        use reuse::UseOp;
+        let mut c = Cur::new(data);
+        let n = 2 + (c.u8() as usize) % 8;
+        let ops = (0..n)
+            .map(|_| {
+                let (a, b) = (c.u8(), c.u8());
+                match a % 14 {
+                    0..=2 => UseOp::Size,
+                    3 => UseOp::Padding,
+                    4..=7 => UseOp::Exact,
+                    8..=10 => UseOp::Short(b as u16 * 257),
+                    11 | 12 => UseOp::Slack(b % 12),
+                    _ => UseOp::Empty,
+                }
+            })
+            .collect();
+        let inv = c.u8() % 5 == 0;
+        let spec = if inv { d::packet(&mut c, true, false) } else { valid(d::packet(&mut c, false, true))? };
+        let how = d::how(&mut c);
+        Some(reuse::ReuseCase { spec, how, ops })
+    }
+    macro_rules! reuse_entry {
+        ($name:ident, $oracle:path) => {
+            pub fn $name(data: &[u8], st: &mut Stats) -> Out {
+                let rc = reuse_case(data)?;
+                Some(($oracle(&rc, st), js(&rc)))
+            }
+        };
+    }
+    reuse_entry!(spec_reuse_c06, reuse::reuse_c06);
+    reuse_entry!(spec_reuse_c07, reuse::reuse_c07);
+    reuse_entry!(spec_reuse_c17, reuse::reuse_c17);
+
     pub fn spec_c14(data: &[u8], st: &mut Stats) -> Out {
         let mut c = Cur::new(data);
         let (inv, only_last) = match c.u8() % 6 {
@@ -249,12 +284,12 @@ mod table {
             ("C03", Mode::Spec) => vec![e("random-sdes", spec_c03)],
             ("C04", Mode::Spec) => vec![e("random-bye-app", spec_c04)],
             ("C05", Mode::Spec) => vec![e("random-feedback", spec_c05)],
-            ("C06", Mode::Spec) => vec![e("random-configs", spec_c06), e("valid-configs", spec_c06_valid)],
-            ("C07", Mode::Spec) => vec![e("random-configs", spec_c07)],
+            ("C06", Mode::Spec) => vec![e("random-configs", spec_c06), e("valid-configs", spec_c06_valid), e("same-builder-used-repeatedly", spec_reuse_c06)],
+            ("C07", Mode::Spec) => vec![e("random-configs", spec_c07), e("same-builder-used-repeatedly", spec_reuse_c07)],
             ("C13", Mode::Spec) => vec![e("random-packets-x-63-paddings", spec_c13)],
             ("C14", Mode::Spec) => vec![e("random-member-lists", spec_c14)],
             ("C16", Mode::Spec) => vec![e("random-configs", spec_c16)],
-            ("C17", Mode::Spec) => vec![e("random-configs", spec_c17), e("valid-configs", spec_c17_valid)],
+            ("C17", Mode::Spec) => vec![e("random-configs", spec_c17), e("valid-configs", spec_c17_valid), e("same-builder-used-repeatedly", spec_reuse_c17)],
             ("C19", Mode::Spec) => vec![e("random-third-party", spec_c19)],
             ("C20", Mode::Spec) => vec![e("any-configs-x-histories", spec_c20)],
             _ => vec![],
